@@ -88,6 +88,9 @@ StringCases(seed) ==
   \cup {StrCase("encmax", EncodeMax(v), v) : v \in SeqsUpTo(ValAlpha, EncMaxLen)}
   \cup {StrCase("uni", p \o <<92, 117>> \o h \o s, <<>>) : p \in UniPrefix, h \in UniHex, s \in UniSuffix}
   \cup {StrCase("rand", RandBody(seed, k), <<>>) : k \in 1..NRandom}
+  \* raw (unescaped) line breaks, tabs and blanks inside a literal are ordinary characters of the value: bodies that differ
+  \* only in their white space denote different strings (all compiled in one process, in an order the seed fixes)
+  \cup {StrCase("raw", b, <<>>) : b \in SeqsUpTo({10, 13, 32, 9, 97}, 3)}
 
 (* what the specification permits for a body *)
 StrValues(body) ==
